@@ -1,6 +1,6 @@
 (* C11 specification side: what the declared attributes demand, how an emitted Zod method chain is
    read back (including JavaScript string-literal decoding and decimal numbers), the boolean oracle,
-   the domain predicate and the known-finding classes. Definitions only. *)
+   the domain predicate and the known-finding classes (C11-5 and C11-7 were repaired: no class). Definitions only. *)
 From Coq Require Import String Ascii List Arith Lia Bool NArith ZArith.
 Require Import TT.Model.Str TT.Model.C11Validator.
 Import ListNotations.
@@ -339,9 +339,6 @@ Definition kf_email_url_substring (f : field) : bool :=
 Definition kf_keyword_in_text (f : field) : bool :=
   existsb (fun t => contains "length" t || contains "range" t || contains "min" t || contains "max" t || contains "message" t)
           (free_text f).
-(* C11-5: the closing quote of a message is found as a character index and used as a byte index *)
-Definition kf_multibyte_message (f : field) : bool :=
-  existsb (existsb (fun c => (128 <=? nat_of_ascii c)%nat)) (lr_msg_lits f).
 (* C11-6: the literal is unescaped by five sequential replace calls on its source text *)
 Fixpoint bad_esc (s : str) : bool :=
   match s with
@@ -360,11 +357,6 @@ Fixpoint bad_esc (s : str) : bool :=
 Definition bad_escape_lit (l : str) : bool :=
   match l with q :: body => negb (Ascii.eqb q dq) || bad_esc body | [] => true end.
 Definition kf_escape_chain (f : field) : bool := existsb bad_escape_lit (lr_msg_lits f).
-(* C11-7: render_type's Optional arm re-enables validation below an array *)
-Fixpoint spine_opt (t : ty) : bool := match t with TyOpt _ => true | TyVec t => spine_opt t | _ => false end.
-Fixpoint strip_opt (t : ty) : ty := match t with TyOpt t => strip_opt t | _ => t end.
-Definition kf_option_below_vec (f : field) : bool :=
-  match strip_opt (f_ty f) with TyVec t => spine_opt t && existsb is_length (field_items f) | _ => false end.
 (* C11-8: the message of email(..) / url(..) is not read at all *)
 Definition kf_flag_message (f : field) : bool :=
   existsb (fun i => existsb is_amsg (flag_args i)) (field_items f).
@@ -380,8 +372,8 @@ Definition kf_f64_inexact (dispf : str -> option str) (f : field) : bool :=
   existsb (fun i => match i with IRange args => existsb (inexact_bound dispf) args | _ => false end) (field_items f).
 
 Definition kf_flags (dispf : str -> option str) (f : field) : list bool :=
-  [kf_neg_bound f; kf_paren_in_literal f; kf_email_url_substring f; kf_keyword_in_text f; kf_multibyte_message f;
-   kf_escape_chain f; kf_option_below_vec f; kf_flag_message f; kf_f64_inexact dispf f].
+  [kf_neg_bound f; kf_paren_in_literal f; kf_email_url_substring f; kf_keyword_in_text f;
+   kf_escape_chain f; kf_flag_message f; kf_f64_inexact dispf f].
 Definition kf_any (dispf : str -> option str) (f : field) : bool := existsb (fun b => b) (kf_flags dispf f).
 
 (* the schema a field without validators gets (ZodVisitor, no validator code involved) *)
